@@ -21,5 +21,9 @@ def run(ctx):
     D.idle_reset(ctx)
     ctx.rule("R-QUEUE-TYPESTATE", "producer and consumer of the server's data queue agree on the write transaction", floor=3)
     D.queue_typestate(ctx)
+    # back-to-back transactions: the DM16 transfer of one transaction must not keep the pair busy for the next one
+    from rules import transport as T, timing as TM
+    ctx.rule("R-FINISH-NOW", "an acknowledged J1939-21 send session is released at once (the next multi-packet DM16 is not refused)", floor=2)
+    TM.finish_now(ctx, T.Layer(ctx, fd=False))
     ctx.assume("DM14 fields are passed in range: object count 0..255, pointer < 2^32, key/user level < 2^16, direct in {0,1}")
     return "DM14/DM15/DM16 layouts by sibling composition, size thresholds, chunk slicing, told arguments and idle reset"
